@@ -272,13 +272,15 @@ def impl_safe(pc: PropCheck, line: str) -> str:
         return "exc=" + exc_name(e)
 
 
-def correspond(pc: PropCheck, res: Result, cases: List[Tuple[str, str]], chunk=100000):
-    """Run cases on implementation and model; returns the disagreeing (line, impl, model)."""
-    bad = []
+def correspond(pc: PropCheck, res: Result, cases: List[Tuple[str, str]], chunk=20000):
+    """Run cases on implementation and model.  Returns (disagreeing triples, spec findings): the
+    property's spec judge runs on *every* case, not only on disagreements."""
+    bad, viol = [], []
     for i in range(0, len(cases), chunk):
         part = cases[i : i + chunk]
         impl_out = [impl_safe(pc, l) for l, _ in part]
         model_out = run_driver([l for l, _ in part])
+        triples = []
         for (l, g), io, mo in zip(part, impl_out, model_out):
             res.evaluations += 1
             res.groups[g] = res.groups.get(g, 0) + 1
@@ -288,10 +290,24 @@ def correspond(pc: PropCheck, res: Result, cases: List[Tuple[str, str]], chunk=1
                 res.samples.append({"case": l[:600], "impl": io[:600], "model": mo[:600]})
             if mo == "bad-op":
                 raise Infra(f"model driver rejected the line: {l[:200]}")
+            triples.append((l, io, mo))
             if io != mo:
                 bad.append((l, io, mo))
-    res.disagreements += [{"case": l, "impl": io, "model": mo} for l, io, mo in bad[:50]]
-    return bad
+        viol += pc.judge(triples)
+    res.disagreements += [{"case": l[:2000], "impl": io[:2000], "model": mo[:2000]} for l, io, mo in bad[:50]]
+    return bad, viol
+
+
+def first_diff(io: str, mo: str) -> str:
+    a, b = io.split(" ; "), mo.split(" ; ")
+    for k, (x, y) in enumerate(zip(a, b)):
+        if x != y:
+            xs, ys = x.split(" "), y.split(" ")
+            if len(xs) == len(ys):
+                d = [(p, q) for p, q in zip(xs, ys) if p != q][:6]
+                return f"op {k}: impl/model differ in {d}"
+            return f"op {k}: impl={x[:200]} model={y[:200]}"
+    return f"impl={io[:200]} model={mo[:200]}"
 
 
 def corpus_lines(prop: str) -> List[Tuple[str, str]]:
@@ -312,11 +328,10 @@ def run_check(pc: PropCheck, tier: str) -> int:
     a = audit(pc.prop, thorough=(tier == "thorough"))
     broken = list(a.problems)
     cases = corpus_lines(pc.prop) + pc.cases(res, tier, rng)
-    bad = correspond(pc, res, cases) if a.build_ok or DRV.exists() else []
-    viol = pc.judge(bad) if bad else []
+    bad, viol = correspond(pc, res, cases) if (a.build_ok or DRV.exists()) else ([], [])
     if bad:
         judged = {v.case for v in viol}
-        broken += [f"correspondence: {l[:300]} :: impl={io[:200]} model={mo[:200]}"
+        broken += [f"correspondence: {l[:300]} :: impl={first_diff(io, mo)}"
                    for l, io, mo in bad if l not in judged][:20]
     if broken and not viol:
         # failing-input search: the spec against the implementation alone
